@@ -34,7 +34,7 @@ PURE_CALLS = {'isinstance', 'callable', 'len', 'hasattr', 'getattr', 'all', 'any
               'round', 'repr', 'type', 'issubclass', 'range', 'bytes', 'bytearray', 'memoryview', 'frozenset'}
 PURE_METHODS = {'get', 'startswith', 'endswith', 'items', 'values', 'keys', 'lower', 'upper', 'strip', 'rstrip',
                 'lstrip', 'split', 'rsplit', 'find', 'index', 'copy', 'decode', 'encode', 'match', 'groups', 'group',
-                'is_set', 'isdigit', 'join', 'format', 'count'}
+                'isdigit', 'join', 'format', 'count'}
 
 
 def U(node) -> str:
@@ -177,6 +177,9 @@ class Evaluator:
         self.max_paths = max_paths
         self.cls_ctx = cls_ctx              # for private-name mangling
         self.scope_node = None
+        self.keep_names_for_calls = False   # bind `x = impure_call()` as the opaque name x (readable terms for E5)
+        self.simplify = False               # fold conditionals/subscripts/bit-ops whose operands are literal (scenario evaluation)
+        self.const_tables = {}              # name -> dict literal (python value) usable by Subscript folding
 
     # ------------------------------------------------------------------------------------------------ terms (E3)
 
@@ -188,6 +191,10 @@ class Evaluator:
 
     def R(self, node: ast.AST, path: Path, shadow: frozenset = frozenset()) -> ast.AST:
         """Resolve an expression to its canonical term under the path's alias environment (no events)."""
+        r = self._R(node, path, shadow)
+        return self.S(r, path) if self.simplify and isinstance(r, (ast.IfExp, ast.Subscript, ast.BinOp, ast.Call)) else r
+
+    def _R(self, node: ast.AST, path: Path, shadow: frozenset = frozenset()) -> ast.AST:
         if isinstance(node, ast.Name):
             if node.id in shadow or node.id.startswith('<'):
                 return node
@@ -276,6 +283,45 @@ class Evaluator:
             return new
         return node
 
+    def S(self, node: ast.AST, path: Path) -> ast.AST:
+        """Literal folding used by scenario evaluation (E5/E9): conditional expressions with a decided test,
+        TABLE[literal], literal & literal, isinstance(<abstract exception>, Class)."""
+        if not self.simplify:
+            return node
+        if isinstance(node, ast.IfExp):
+            t = self.S(node.test, path)
+            ok, v = self.const_of(t)
+            if ok:
+                return self.S(node.body if v else node.orelse, path)
+            if isinstance(t, ast.Compare) and len(t.ops) == 1 and isinstance(t.ops[0], (ast.Is, ast.IsNot)):
+                lc, lv = self.const_of(t.left)
+                rc, rv = self.const_of(t.comparators[0])
+                if lc and rc:
+                    b = (lv is rv) if isinstance(t.ops[0], ast.Is) else (lv is not rv)
+                    return self.S(node.body if b else node.orelse, path)
+            return node
+        if isinstance(node, ast.Subscript) and isinstance(node.value, ast.Name) and node.value.id in self.const_tables:
+            ok, k = self.const_of(self.S(node.slice, path))
+            if ok and k in self.const_tables[node.value.id]:
+                return ast.Constant(self.const_tables[node.value.id][k])
+            return node
+        if isinstance(node, ast.BinOp) and isinstance(node.op, (ast.BitAnd, ast.BitOr)):
+            a, b = self.S(node.left, path), self.S(node.right, path)
+            (ac, av), (bc, bv) = self.const_of(a), self.const_of(b)
+            if ac and bc and isinstance(av, int) and isinstance(bv, int):
+                return ast.Constant(av & bv if isinstance(node.op, ast.BitAnd) else av | bv)
+            return ast.BinOp(left=a, op=node.op, right=b)
+        if isinstance(node, ast.Call) and isinstance(node.func, ast.Name) and node.func.id == 'isinstance' and len(node.args) == 2:
+            a0 = node.args[0]
+            if isinstance(a0, ast.Constant) and a0.value is None:
+                return ast.Constant(False)
+            if isinstance(a0, ast.Name) and a0.id.startswith('<exc ') and isinstance(path.env.get(a0.id), Exc):
+                ref = self.repo.resolve_class(self.mod, node.args[1], scope=self.scope_node)
+                sub = self.repo.is_subclass(path.env[a0.id].ref, ref)
+                if sub is not None:
+                    return ast.Constant(bool(sub))
+        return node
+
     def _is_local(self, name: str, path: Path) -> bool:
         return name in path.env
 
@@ -318,6 +364,10 @@ class Evaluator:
             return True
         if isinstance(term, ast.Name) and term.id.startswith('<def '):
             return True
+        if isinstance(term, (ast.Name, ast.Attribute)) and getattr(self, 'classes_truthy', False):
+            ref = self.repo.resolve_class(self.mod, term, scope=self.scope_node)
+            if ref is not None and (ref[0] == 'repo' or U(term) in ('Exception', 'BaseException', 'SystemExit', 'KeyboardInterrupt')):
+                return True
         if isinstance(term, ast.JoinedStr):
             if any(isinstance(v, ast.Constant) and v.value for v in term.values):
                 return True
@@ -723,6 +773,11 @@ class Evaluator:
                    tuple((k.arg, U(k.value)) for k in rc.keywords) if isinstance(rc, ast.Call) else (),
                    len(path.pc), U(call), stmt=getattr(self, '_cur_stmt', None), depth=path.depth, cond=conditional, value=rc)
         path.events.append(ev)
+        if isinstance(rc, ast.Call) and not is_pure_call(rc) and path.facts:
+            # a new evaluation of an impure call: what was assumed about its previous result no longer applies
+            txt = U(rc)
+            for k in [k for k in path.facts if txt in k]:
+                del path.facts[k]
         outs = None
         if self.call_oracle is not None and isinstance(rc, ast.Call):
             outs = self.call_oracle(call, rc, path, ev)
@@ -796,6 +851,8 @@ class Evaluator:
             return None
         scratch = path.fork()
         rc = self.R(call, scratch)
+        if not isinstance(rc, ast.Call):
+            return None
         tgt = self.inline(call, rc, path)
         if tgt is None:
             return None
@@ -859,6 +916,12 @@ class Evaluator:
                         unroll_while=self.unroll_while, call_oracle=self.call_oracle, inline=self.inline,
                         max_depth=self.max_depth, max_paths=self.max_paths)
         sub.npaths = self.npaths
+        sub.keep_names_for_calls = self.keep_names_for_calls
+        sub.simplify = self.simplify
+        sub.const_tables = self.const_tables if mod is self.mod else {}
+        sub.scope_node = fn
+        sub.cls_ctx = None
+        sub.classes_truthy = getattr(self, 'classes_truthy', False)
         path.frames.append(frame)
         path.depth += 1
         outs = sub.block(fn.body, path)
@@ -878,7 +941,12 @@ class Evaluator:
 
     def assign_target(self, tgt: ast.AST, val: ast.AST, path: Path, st: ast.stmt, kind='store'):
         if isinstance(tgt, ast.Name):
-            self.bind(tgt.id, val, path)
+            if self.keep_names_for_calls and isinstance(val, ast.Call) and not is_pure_call(val):
+                path.env.pop(tgt.id, None)
+                for k in [k for k in path.heap if k.startswith(tgt.id + '.') or k.startswith(tgt.id + '[')]:
+                    del path.heap[k]
+            else:
+                self.bind(tgt.id, val, path)
             path.events.append(Event('bind', tgt, tgt.id, (U(val),), (), len(path.pc), U(st) if not isinstance(st, (ast.For, ast.With, ast.AsyncFor, ast.AsyncWith)) else f'<target of {type(st).__name__}>', stmt=st, depth=path.depth, value=val))
             return
         if isinstance(tgt, (ast.Tuple, ast.List)):
